@@ -1,8 +1,39 @@
-import Oracle.Util
-/-! Oracle handlers for C06 (model functions exposed on the line protocol). -/
+import Oracle.AccessUtil
+/-! Oracle handlers for C06: the two account-creation paths and the disconnect decision. -/
 namespace Oracle
-open Mobius
+open Mobius Mobius.Spec Mobius.Authz
 
-def c06Handlers : List (String × Handler) := []
+def banKindStr : BanKind → String
+  | .temporary => "temporary" | .permanent => "permanent"
+
+def c06Handlers : List (String × Handler) := [
+  -- newuser <creator hex> <login exists 0|1> <access field hex> <create fails 0|1>
+  ("newuser", fun (a : List String) => match a with
+    | [c, e, f, x] => createStr (newUser (bitmapOf c) (flag e) (hexb f) (flag x))
+    | _ => "bad-op"),
+  -- updcreate <creator hex> <access sub-field hex> <create fails 0|1>
+  ("updcreate", fun (a : List String) => match a with
+    | [c, f, x] => createStr (updateUserCreate (bitmapOf c) (hexb f) (flag x))
+    | _ => "bad-op"),
+  -- subset <a hex> <b hex>  : a ⊆ b (the property's own predicate)
+  ("subset", fun (a : List String) => match a with
+    | [x, y] => toString (AccessBitmap.subsetB (bitmapOf x) (bitmapOf y))
+    | _ => "bad-op"),
+  ("ofbytes", fun (a : List String) => match a with
+    | [d] => bitmapStr (AccessBitmap.ofBytes (hexb d))
+    | _ => "bad-op"),
+  -- disconnect <requester hex> <target hex> <option>  →  requester guard, then the target decision
+  ("disconnect", fun (a : List String) => match a with
+    | [r, t, o] => match banOptOf o with
+      | some opt =>
+        if !(bitmapOf r).isSet Priv.disconUser then "denied"
+        else
+          let d := disconnectTarget (bitmapOf t) "L" "IP" opt []
+          let rep := match d.reply with | .errReply _ => "protected" | _ => "reply"
+          let bans := if d.bans.isEmpty then "-" else ",".intercalate (d.bans.map fun b => banKindStr b.2)
+          s!"{rep} bans={bans} scheduled={d.scheduled} notice={d.notice}"
+      | none => "bad-op"
+    | _ => "bad-op")
+]
 
 end Oracle
